@@ -257,6 +257,30 @@ class LoopInventory(Unit):
                     inv.append(("for", name, n.lineno, why, finite and not mutated))
             calls[name] = {c.func.attr for c in ast.walk(node) if isinstance(c, ast.Call) and isinstance(c.func, ast.Attribute)} | \
                           {c.func.id for c in ast.walk(node) if isinstance(c, ast.Call) and isinstance(c.func, ast.Name)}
+        # regular expressions used by the decoders' modules: matching time is outside the loop analysis (it happens in
+        # the regex engine); a pattern with an unbounded repetition nested in another one can backtrack exponentially
+        import re as _re
+        import sys as _sys
+
+        self.regexes = []
+        seen_mods = set()
+        for name, cls, fn, kind in decoder_functions():
+            mod = _sys.modules.get(fn.__module__)
+            if mod is None or mod in seen_mods:
+                continue
+            seen_mods.add(mod)
+            pats = {v.pattern for v in vars(mod).values() if isinstance(v, _re.Pattern)}
+            try:
+                tree = ast.parse(inspect.getsource(mod))
+            except (OSError, TypeError):
+                tree = None
+            if tree is not None:
+                for c in ast.walk(tree):
+                    if (isinstance(c, ast.Call) and isinstance(c.func, ast.Attribute) and isinstance(c.func.value, ast.Name) and c.func.value.id == "re"
+                            and c.args and isinstance(c.args[0], ast.Constant) and isinstance(c.args[0].value, (str, bytes))):
+                        pats.add(c.args[0].value)
+            for p in sorted(pats, key=repr):
+                self.regexes.append((mod.__name__, p, regex_nested_unbounded(p)))
         masks = []
         for lname, lay in repo_layouts().items():
             for k, v in lay.items():
@@ -288,10 +312,53 @@ class LoopInventory(Unit):
 
         for n in sorted(graph):
             yield "C11", "decoder-does-not-recurse:%s" % n, not cyc(n)
+        for mname, pat, bad in getattr(self, "regexes", []):
+            yield "C11", "regex-without-nested-unbounded-repetition (matching cannot backtrack exponentially):%s:%r" % (mname.rsplit(".", 1)[-1], pat if len(repr(pat)) < 90 else repr(pat)[:90]), not bad
         yield "C11", "all-layout-masks-positive (mask loops of the codec terminate)", all(ok for _, _, ok in masks) and len(masks) > 100
         for lname, k, ok in masks:
             if not ok:
                 yield "C11", "mask-positive:%s.%s" % (lname, k), False
+
+
+def regex_nested_unbounded(pattern):
+    """True if the pattern has an unbounded repetition (*, +, {n,}) whose body contains another unbounded repetition
+    (star height > 1): the classical shape of exponential backtracking.  Patterns that cannot be parsed count as bad."""
+    try:
+        import re._parser as sre_parse  # Python >= 3.11
+    except ImportError:  # pragma: no cover
+        import sre_parse
+    try:
+        tree = sre_parse.parse(pattern)
+    except Exception:
+        return True
+    MAXREPEAT = sre_parse.MAXREPEAT
+
+    def walk(items, inside_unbounded):
+        for op, av in items:
+            name = str(op)
+            if name in ("MAX_REPEAT", "MIN_REPEAT", "POSSESSIVE_REPEAT"):
+                lo, hi, body = av
+                unbounded = hi == MAXREPEAT or hi > 64
+                if unbounded and inside_unbounded:
+                    return True
+                if walk(body, inside_unbounded or unbounded):
+                    return True
+            elif name == "SUBPATTERN":
+                if walk(av[-1], inside_unbounded):
+                    return True
+            elif name == "BRANCH":
+                for alt in av[1]:
+                    if walk(alt, inside_unbounded):
+                        return True
+            elif name in ("ASSERT", "ASSERT_NOT"):
+                if walk(av[1], inside_unbounded):
+                    return True
+            elif name == "ATOMIC_GROUP":
+                if walk(av, inside_unbounded):
+                    return True
+        return False
+
+    return walk(list(tree), False)
 
 
 class _Budget(Exception):
